@@ -48,6 +48,11 @@ def KW.resolve {β : Type} (kw : KW β) (axname : String) (dflt : β) : β :=
   | .scalar v => v
   | .dict m => (alookup axname m).getD dflt
 
+/-- `pad()` checks the completed boundary mapping of ALL axes before anything else:
+    an unknown word anywhere is a ValueError -/
+def boundaryWordsOk (g : GridM α) (boundary : KW String) : Bool :=
+  g.axes.all (fun ax => (Rule.ofString? (boundary.resolve ax.name ax.boundary.toString)).isSome)
+
 /-- `Axis.__init__` default-shift completion from FALLBACK_SHIFTS -/
 def defaultShiftsOf (fallback : List (Pos × List Pos)) (present : List Pos) : List (Pos × Pos) :=
   present.filterMap (fun p =>
